@@ -324,11 +324,22 @@ fn run_batch(args: &[String]) -> i32 {
             if c.owned_by(&prop) && prop == "C18" {
                 // control: the same programs one after the other. A failure that needs no
                 // interleaving is not a concurrency defect (it belongs to a sequential property).
-                let mut ctl = case.clone();
-                ctl.sequential = true;
-                if child_search(&replay_dir, &ctl, Some(&sched), &prop, &c.name, 1).is_some() {
-                    c.owners.retain(|o| o != "C18");
-                    res.counters.inc("control.sequential_run_fails_too");
+                let n = case.threads.len();
+                let mut orders: Vec<Vec<usize>> = vec![(0..n).collect()];
+                if n == 2 {
+                    orders.push(vec![1, 0]);
+                } else if n == 3 {
+                    orders.extend([vec![0, 2, 1], vec![1, 0, 2], vec![1, 2, 0], vec![2, 0, 1], vec![2, 1, 0]]);
+                }
+                for o in orders {
+                    let mut ctl = case.clone();
+                    ctl.sequential = true;
+                    ctl.order = o;
+                    if child_search(&replay_dir, &ctl, Some(&sched), &prop, &c.name, 1).is_some() {
+                        c.owners.retain(|o| o != "C18");
+                        res.counters.inc("control.sequential_run_fails_too");
+                        break;
+                    }
                 }
             }
             if c.owned_by(&prop) {
